@@ -27,6 +27,7 @@ type c03Case struct {
 	NilParam bool         `json:"nil_param"`
 	Code     []byte       `json:"code"`   // submitted string (bytes: may be invalid UTF-8)
 	Origin   string       `json:"origin"` // how the generator built it (informational)
+	Via      int          `json:"via,omitempty"` // explicit parameters routed through an exported default pointer (see viaDefault)
 }
 
 // windowSet returns the codes of counters max(0,c-s)..c+s (c+s must not overflow).
@@ -57,6 +58,11 @@ func checkC03(c c03Case) verdict {
 	labels := []string{"origin=" + c.Origin, counterClass(c.Counter)}
 	if c.NilParam {
 		labels = append(labels, "nilparam")
+	}
+	param, restore := viaDefault(c.Via, param)
+	defer restore()
+	if c.Via != 0 && !c.NilParam {
+		labels = append(labels, "via-exported-default")
 	}
 	got, err := otp.ValidateHOTP(secret, string(c.Code), c.Counter, param)
 	supported := digits >= 1 && digits <= 10 && algo >= 0 && algo <= 2
@@ -165,6 +171,9 @@ func genC03(t *rapid.T) c03Case {
 		c.Counter = ^uint64(0) - s
 	}
 	c.Code, c.Origin = drawSubmission(t, c.Key, c.Counter, s, d, a)
+	if !c.NilParam && rapid.IntRange(0, 7).Draw(t, "viaQ") == 0 {
+		c.Via = rapid.IntRange(1, 4).Draw(t, "via")
+	}
 	return c
 }
 
@@ -187,6 +196,7 @@ type c04Case struct {
 	NilParam bool         `json:"nil_param"`
 	Code     []byte       `json:"code"`
 	Origin   string       `json:"origin"`
+	Via      int          `json:"via,omitempty"` // explicit parameters routed through an exported default pointer (see viaDefault)
 }
 
 // hang reports a call that did not return within the (very generous) watchdog and
@@ -238,6 +248,11 @@ func checkC04(c c04Case) verdict {
 	t := time.Unix(c.Unix, int64(c.Nsec))
 	var got bool
 	var err error
+	param, restore := viaDefault(c.Via, param)
+	defer restore()
+	if c.Via != 0 && !c.NilParam {
+		labels = append(labels, "via-exported-default")
+	}
 	if !bounded(func() { got, err = otp.ValidateTOTP(secret, string(c.Code), t, param) }, 10*time.Second) {
 		hang("C04", "main", c, recorders["C04/main"], fmt.Sprintf("ValidateTOTP(skew=%d, period=%d) did not return within 10 s and again within 20 s: work is not bounded in the skew", skew, period))
 	}
@@ -348,6 +363,9 @@ func genC04(t *rapid.T) c04Case {
 		n = uint64(c.Unix) / p
 	}
 	c.Code, c.Origin = drawSubmission(t, c.Key, n, s, d, a)
+	if !c.NilParam && rapid.IntRange(0, 7).Draw(t, "viaQ") == 0 {
+		c.Via = rapid.IntRange(1, 4).Draw(t, "via")
+	}
 	return c
 }
 
